@@ -26,7 +26,19 @@ def aj_to_text(v):
 BAD = {"empty": "", "truncated": '{"a":[1,2', "garbage": '{"a":1} x', "notjson": "nonsense",
        "deep100k": "[" * 60000 + "]" * 60000, "deepobj100k": '{"a":' * 20000 + "1" + "}" * 20000,
        "nest126": '{"!":' * 126 + "true" + "}" * 126,
-       "ffpad": '\x0c{"==":[1,1]}', "nbsppad": "null\xa0", "nelpad": "\x851", "lspad": "[1]\u2028", "twodocs": "1\n2"}
+       "ffpad": '\x0c{"==":[1,1]}', "nbsppad": "null\xa0", "nelpad": "\x851", "lspad": "[1]\u2028", "twodocs": "1\n2",
+       # a Python str that is not encodable as UTF-8 (lone surrogate): not a text the library can be given
+       "surrogate": '"\ud800"'}
+
+PYKEYS = {"2": 2, "null": None, "true": True, "2.5": 2.5, "-7": -7}
+def pyify(x):
+    """A dict that has the key "pykeys" gets the Python spelling of its JSON-representable non-string keys
+    (json.dumps turns 2 / None / True / 2.5 back into "2" / "null" / "true" / "2.5": the JSON text is the same)."""
+    if isinstance(x, list): return [pyify(y) for y in x]
+    if isinstance(x, dict):
+        conv = "pykeys" in x
+        return {(PYKEYS.get(k, k) if conv else k): pyify(v) for k, v in x.items()}
+    return x
 
 def strict_eq(a, b):
     """equal values AND equal types all the way down (1 vs 1.0 differ)"""
@@ -35,6 +47,10 @@ def strict_eq(a, b):
     if isinstance(a, dict): return a.keys() == b.keys() and all(strict_eq(a[k], b[k]) for k in a)
     if isinstance(a, float) and a == 0.0 and b == 0.0: return math.copysign(1, a) == math.copysign(1, b)
     return a == b
+
+def surrogate_case(s):
+    """the unencodable text is refused by the str -> UTF-8 conversion itself: UnicodeEncodeError, a ValueError"""
+    return any((not s[k].get("valid", True)) and s[k].get("cls") == "surrogate" for k in ("value", "data"))
 
 def main():
     import jsonlogic_rs
@@ -62,12 +78,12 @@ def main():
         try:
             if entry == "apply":
                 if s["value"]["valid"]:
-                    value = json.loads(aj_to_text(s["value"]["v"]))
+                    value = pyify(json.loads(aj_to_text(s["value"]["v"])))
                 else:
                     value = float("nan")          # class "pynan": dumps gives the malformed text NaN
                 args = [value]
                 if not s["data"].get("omitted"):
-                    data = json.loads(aj_to_text(s["data"]["v"])) if s["data"]["valid"] else float("nan")
+                    data = pyify(json.loads(aj_to_text(s["data"]["v"]))) if s["data"]["valid"] else float("nan")
                     args.append(data)
                 if s["ser"] == "custom": kwargs["serializer"] = custom_ser
                 if s["deser"] == "custom": kwargs["deserializer"] = custom_deser
@@ -84,13 +100,13 @@ def main():
             actual = {"kind": "return", "repr": repr(got)}
         except BaseException as e:          # SystemError / PanicException / TypeError must all be seen
             got = None
-            actual = {"kind": "raise", "exc": type(e).__name__, "msg": str(e)[:200]}
+            actual = {"kind": "raise", "exc": type(e).__name__, "msg": str(e)[:200], "is_value_error": isinstance(e, ValueError)}
         exp = s["exp"]
         why = None
         if exp["kind"] == "raise":
             if actual["kind"] != "raise":
                 why = "returned %s, expected %s" % (actual["repr"], exp["exc"])
-            elif actual["exc"] != exp["exc"]:
+            elif actual["exc"] != exp["exc"] and not (surrogate_case(s) and exp["exc"] == "ValueError" and actual["is_value_error"]):
                 why = "raised %s (%s), expected %s" % (actual["exc"], actual["msg"], exp["exc"])
         else:
             want = json.loads(aj_to_text(exp["v"]))
